@@ -301,8 +301,43 @@ def rule_c(ck, R):
         want = {-EBADMSG: E['RP_META_EHEADERENC'], -EILSEQ: E['RP_META_EHEADERCRC']}
         if got != want:
             bad = bad or 'header faults are answered %s, expected %s' % (got, want)
+        # what regp_process will see: error.id at every return is exactly the fault that occurred on the path
+        #   parse_frame may have failed  -> error.id == -rc (never 0)
+        #   sink reported an error       -> error.id == that error
+        #   otherwise                    -> error.id == 0, whatever an earlier call left in the caller's object
+        EID = ('f', ('&', ('f', MF, 'error')), 'id')
+        nrec = 0
+        for p in ps:
+            if p.end != 'return':
+                continue
+            eid = sym.mem_read(p.mem, EID)
+            pf = p.calls('parse_frame')
+            sinkerr = [c for c in p.cond_terms() if c[0] == 'cmp' and c[1] in ('!=', '==') and 'error.id' in fmt(c[2]) and strip_cast(c[2])[0] != 'f']
+            chan = [e for e in p.calls() if e.name in ('lenp_decode_source_to_sink', 'rfc1055_decode')]
+            if chan and any(strip_cast(p.ret) == e.result for e in chan):
+                continue                                    # channel error: no frame, the result is returned as such
+            nrec += 1
+            if pf:
+                r = pf[0].result
+                if eng.feasible(p.cond_terms() + [('cmp', '<', r, C(0))]):
+                    if not ((eid[0] == 'neg' and eid[1] == r) or fmt(eid) == '-%s' % fmt(r)):
+                        bad = bad or ('parse_frame may have failed on the path {%s} but error.id is left at %s: regp_process treats the frame as valid and executes it'
+                                      % ('; '.join(fmt(c) for c in p.cond_terms() if sym.contains(c, r)), fmt(eid)))
+                elif eid != C(0):
+                    bad = bad or ('a frame that parsed without fault leaves error.id = %s (not reset to 0 for this call): a good frame following a bad one is treated as failed'
+                                  % fmt(eid))
+            else:
+                nz = [c for c in sinkerr if c[1] == '!=' and c[3] == C(0)]
+                if nz:
+                    src = strip_cast(nz[0][2])
+                    if strip_cast(eid) != src:
+                        bad = bad or 'the receive sink reported an error (%s) but error.id is %s' % (fmt(nz[0]), fmt(eid))
+                elif sym.is_c(eid) and eid[1] == 0 and not (p.ret is not None and p.ret[0] == 'c' and p.ret[1] < 0):
+                    bad = bad or 'a path without a parsed frame returns with error.id = 0: %s' % p.describe(3)
+        if nrec < 6:
+            bad = bad or 'only %d recording paths found' % nrec
         ck.verdict(bad is None, 'C07.c', 'regp_recv:classify', R.where('regp_recv'),
-                   'EBADMSG -> META EHEADERENC, EILSEQ -> META EHEADERCRC, error.id = -rc' if bad is None else bad)
+                   'EBADMSG -> META EHEADERENC, EILSEQ -> META EHEADERCRC; at every return error.id is exactly the fault of this call (-rc, the sink error, or 0)' if bad is None else bad)
     ps = R.paths('regp_process', 'C07.c')
     if ps is not None:
         bad = None
